@@ -204,6 +204,7 @@ const (
 	OpInvoke       // c.Invoke(func(Token) ...) from inside the handler: a nested resolution in request scope
 	OpApply        // c.Apply(&struct{... `inject`}) in request scope
 	OpSeeNamer     // resolve the Namer interface (implemented only by the application service) and note it
+	OpHTTPError    // answer with http.Error through the handed-out writer
 	OpSetCL        // announce a Content-Length the handler may never honour
 	OpExpireCtx    // install a derived context whose deadline has already passed (context.DeadlineExceeded, no timer)
 	OpMapOwnWriter // map an independent flamego.ResponseWriter (a buffering substitute) as the http.ResponseWriter service
